@@ -429,7 +429,7 @@ func init() {
 			if th {
 				return 9
 			}
-			return 5
+			return 6
 		}}
 }
 
